@@ -7,7 +7,7 @@ modes
                                               (+ an overloadable constant ov :: 'a) and, when accepted, installed on a copy of the theory
   rand <n> <out.ndjson> <seed>               seeded random larger candidate definitions in theory nat (self-reference, overloaded
                                               names, extra (schematic) variables, polymorphic right-hand sides, odd arguments)
-  gen <out.ndjson> <seed>                    generated datatypes (<= 2 constructors), recursive functions (<= 2 equations) and
+  gen <out.ndjson> <seed>                    generated datatypes (uniform and non-uniform recursion, arity 0-2), recursive functions and
                                               inductive predicates (<= 2 rules) over them and over nat / list, incl. adversarial ones
   library <name,name,..|all> <out.ndjson>    code -> spec: every item of the library files: parse, extension, and the two
                                               round trips  export_json -> parse_item  and  get_display -> parse_edit
@@ -420,32 +420,58 @@ def mode_gen(out_path, seed):
             round_trips(log, "gen", item, thy_p, thy2, keybase="gen:%s:%s" % (tag, digest(data)))
         theory.thy = thy
         return thy2
-    for param in (False, True):
-        Ts = "'a dt" if param else "dt"
-        pool = [("K0", [], []), ("K1", ["n"], ["nat"]), ("K2", ["r"], [Ts]), ("K5", ["f"], ["nat => " + Ts])]
-        if param:
-            pool += [("K3", ["v"], ["'a"]), ("K4", ["v", "r"], ["'a", Ts]), ("K6", ["g"], ["'a => bool"])]
-        subsets = [list(c) for k in (1, 2) for c in itertools.combinations(pool, k)]
-        for cs in subsets:
-            data = {"ty": "type.ind", "name": "dt", "args": ["a"] if param else [],
+    def family(thy, name, params, Ts, combos, tag, with_defs=True):
+        """Offer datatype `name` once per constructor combination (each constructor = (name, argument names, argument types as text)),
+        and over each accepted one a recursive function and an inductive predicate (one equation / rule per constructor;
+        recursion only through arguments whose type IS the datatype)."""
+        for cs in combos:
+            data = {"ty": "type.ind", "name": name, "args": list(params),
                     "constrs": [{"name": nm, "args": list(an), "type": " => ".join(["(%s)" % t for t in at] + [Ts])} for nm, an, at in cs]}
-            thy2 = offer(base, data, "datatype")
-            if thy2 is None:
+            thy2 = offer(thy, data, tag)
+            if thy2 is None or not with_defs:
                 continue
-            # recursive function over the new type: one equation per constructor
             rules = []
             for nm, an, at in cs:
                 lhs = "sz (%s)" % " ".join([nm] + an)
                 rec = [a for a, t in zip(an, at) if t == Ts]
                 rules.append({"prop": "%s = %s" % (lhs, ("Suc (sz %s)" % rec[0]) if rec else rnd.choice(["0", "Suc 0", "1"]))})
             thy3 = offer(thy2, {"ty": "def.ind", "name": "sz", "type": Ts + " => nat", "rules": rules}, "fun")
-            # inductive predicate over the new type: one rule per constructor
             prules = []
             for i, (nm, an, at) in enumerate(cs):
                 rec = [a for a, t in zip(an, at) if t == Ts]
                 concl = "pr (%s)" % " ".join([nm] + an)
                 prules.append({"name": "pr_%d" % i, "prop": " --> ".join(["pr " + a for a in rec] + [concl])})
             offer(thy3 if thy3 is not None else thy2, {"ty": "def.pred", "name": "pr", "type": Ts + " => bool", "rules": prules}, "pred")
+
+    # ---- uniform recursion: all combinations of <= 2 constructors, without and with a type parameter
+    for param in (False, True):
+        Ts = "'a dt" if param else "dt"
+        pool = [("K0", [], []), ("K1", ["n"], ["nat"]), ("K2", ["r"], [Ts]), ("K5", ["f"], ["nat => " + Ts])]
+        if param:
+            pool += [("K3", ["v"], ["'a"]), ("K4", ["v", "r"], ["'a", Ts]), ("K6", ["g"], ["'a => bool"])]
+        family(base, "dt", ["a"] if param else [], Ts, [list(c) for k in (1, 2) for c in itertools.combinations(pool, k)], "datatype")
+    # ---- NON-uniform recursion: the datatype occurs in its own constructors at OTHER instances (other type arguments, swapped or
+    # identified parameters, closed instances, nested inside fun / list / a pair type / itself); datatypes of arity 0, 1 and 2
+    pair = {"ty": "type.ind", "name": "pr2", "args": ["a", "b"], "constrs": [{"name": "MkP", "args": ["p1", "p2"], "type": "'a => 'b => ('a, 'b) pr2"}]}
+    base2 = offer(base, pair, "datatype") or base
+    N0, NA, NU = ("N0", [], []), ("NA", ["v"], ["'a"]), ("NU", ["r"], ["'a nu"])
+    nonuni1 = [("NL", ["r"], ["'a list nu"]), ("NN", ["r"], ["nat nu"]), ("NX", ["v", "r"], ["'a", "'a list nu"]),
+               ("NF", ["f"], ["nat => 'a list nu"]), ("NLL", ["l"], ["'a list nu list"]), ("NP", ["p"], ["('a nu, nat nu) pr2"]),
+               ("NB", ["r", "q"], ["'a nu", "('a => 'a) nu"]), ("NS", ["r"], ["'a nu nu"])]
+    combos1 = [[c] for c in nonuni1] + [[N0, c] for c in nonuni1] + [[NU, c] for c in nonuni1[:4]] + [[NA, nonuni1[0]], [nonuni1[0], nonuni1[1]]]
+    D0, DA, DB, DS = ("D0", [], []), ("DA", ["v"], ["'a"]), ("DB", ["w"], ["'b"]), ("DS", ["r"], ["('a, 'b) d2"])
+    nonuni2 = [("DD", ["r"], ["('a, 'a) d2"]), ("DW", ["r"], ["('b, 'a) d2"]), ("DM", ["r"], ["(nat, 'a list) d2"]),
+               ("DX", ["v", "r"], ["'a", "('b, 'a) d2"]), ("DQ", ["r"], ["('a, ('a, 'b) d2) d2"]), ("DL", ["l"], ["('b, 'b) d2 list"])]
+    combos2 = [[c] for c in nonuni2] + [[D0, c] for c in nonuni2] + [[DS, c] for c in nonuni2[:3]] + [[DA, DB], [DA, nonuni2[1]]]
+    # seeded: a few larger mixtures (3 constructors)
+    for _ in range(3):
+        combos1.append(rnd.sample([N0, NA, NU] + nonuni1, 3))
+        combos2.append(rnd.sample([D0, DA, DB, DS] + nonuni2, 3))
+    family(base2, "nu", ["a"], "'a nu", combos1, "datatype_nu")
+    family(base2, "d2", ["a", "b"], "('a, 'b) d2", combos2, "datatype_nu")
+    # a monomorphic datatype through a polymorphic one, and wrong arities of the datatype inside its own constructors (refused)
+    family(base2, "m0", [], "m0", [[("M0", [], []), ("ML", ["l"], ["m0 list"])], [("MP", ["p"], ["(m0, nat) pr2"])]], "datatype_nu")
+    family(base2, "nu", ["a"], "'a nu", [[N0, ("NW", ["r"], ["nu"])], [N0, ("NW2", ["r"], ["('a, 'a) nu"])]], "datatype_nu", with_defs=False)
     # functions / predicates over nat and list, including adversarial shapes
     funs = [
         {"ty": "def.ind", "name": "dbl", "type": "nat => nat", "rules": [{"prop": "dbl 0 = 0"}, {"prop": "dbl (Suc n) = Suc (Suc (dbl n))"}]},
